@@ -321,7 +321,7 @@ func main() {
 	r := evid.NewReport("C07", tier)
 	r.Rule = "programs of every family within 1 deviation of their scaffold x analysis + all targets (7, plus typescript/api for route files); every executed map range is a choice point whose alternatives are all n! orders (n <= 4) or reversal / rotations / adjacent transpositions / move-to-fronts (n > 4); every run with at most B non-canonical orders is compared byte for byte with the canonical-order run; a case is one (program, order vector); non-trivial = the program executes at least one map range with >= 2 keys"
 	r.Assumptions = []string{
-		"map iteration is the only source of nondeterminism before saveOutputs (no clock, randomness or goroutine); the instrumenter rewrites every map range of the non-test files of analysis/... and generator/... (sites listed in the evidence)",
+		"library pass: map iteration is the only source of nondeterminism before saveOutputs (no clock or randomness); goroutines are covered by the configuration-mode pass (Config.run of the CLI on a two-file module, dart + typescript/types, under the cooperative scheduler: every schedule within the deviation bound must write the files of the canonical schedule); the instrumenter rewrites every map range of the non-test files of analysis/... and generator/... (sites listed in the evidence)",
 	}
 	bound := 1
 	if tier == "thorough" {
@@ -373,6 +373,35 @@ func main() {
 		}(s)
 	}
 	wg.Wait()
+	// harness C (configuration mode of the CLI under the scheduler), run by the parent
+	if hc := os.Getenv("VERIF_C07C"); strings.HasPrefix(hc, "unavailable") || hc == "" {
+		r.Internal("harness C (Config.run under the scheduler): " + hc)
+	} else {
+		var res struct {
+			Runs, Transitions, Bound, Files, Points int
+			Failures                              []struct{ Clause, Scenario, Schedule, Detail, Trace string }
+			Internal                              string
+		}
+		if err := json.Unmarshal([]byte(hc), &res); err != nil {
+			r.Internal("harness C: bad result: " + err.Error())
+		} else {
+			if res.Internal != "" {
+				r.Internal("harness C: " + res.Internal)
+			}
+			r.Evaluations += res.Runs
+			r.TracesImpl += res.Runs
+			r.Transitions += res.Transitions
+			r.Bounds["config_mode_schedule_deviations"] = res.Bound
+			r.Extra["config_mode_schedules_explored"] = res.Runs
+			r.Extra["config_mode_files_compared"] = res.Files
+			r.Extra["config_mode_scheduling_points_canonical"] = res.Points
+			r.Outcome(fmt.Sprintf("config mode: %d files identical under the explored schedules", res.Files))
+			for _, f := range res.Failures {
+				r.Fail(evid.Failure{Clause: "C07/" + f.Clause, Sig: "output of the configuration mode depends on the goroutine schedule", Detail: f.Scenario + ", schedule " + f.Schedule + ": " + f.Detail + "\ntrace: " + f.Trace, Family: "cli-config",
+					Extra: map[string]any{"schedule": f.Schedule}})
+			}
+		}
+	}
 	r.Extra["instrumented_sites_executed"] = sites
 	r.Extra["instrumented_sites"] = strings.Split(os.Getenv("VERIF_C07_SITES"), ",")
 	// states = distinct (program, order vector) runs: every run is distinct by construction
